@@ -6,6 +6,9 @@ from . import qcommon as qc
 RCPTS = ['a@x', 'b@x', 'c@y']
 REPLIES = {'permA': ('perm', '5.1.1 no such user'),
            'permB': ('perm', '5.2.2 mailbox full'),
+           # differs from permA / tempA in the enhanced status code only
+           'permC': ('perm', '5.1.2 no such user'),
+           'tempC': ('temp', '4.2.1 mailbox busy'),
            'tempA': ('temp', '4.2.0 mailbox busy'),
            'tempB': ('temp', '4.3.0 try again later')}
 
